@@ -190,12 +190,23 @@ EClose(f, g, bits) == DOMAIN f = DOMAIN g /\ \A m \in DOMAIN f : NClose(f[m], g[
 \* all-zero row
 RowIsZero(coefs, r) == \A k \in 1..Len(coefs[r]) : NIsZero(coefs[r][k])
 RowIsConst(rows, r) == \A j \in 1..Len(rows[r]) : rows[r][j] = 0
-\* rows kept by cleaning: non-zero rows (order preserved); if nothing is left, a
-\* single constant row.  names kept: those with some positive exponent in a kept
-\* row; if none is left, the first name.
-KeptRows(rows, coefs, retainCoef) ==
-  IF retainCoef THEN [r \in 1..Len(rows) |-> r]
-  ELSE SelectSeq([r \in 1..Len(rows) |-> r], LAMBDA r : ~RowIsZero(coefs, r))
-UsedCols(rows, keptRows, nnames) ==
-  SelectSeq([j \in 1..nnames |-> j], LAMBDA j : \E i \in 1..Len(keptRows) : rows[keptRows[i]][j] > 0)
+\* Cleaning of an attribute triple exactly as documented: with retain_coefficients off the
+\* all-zero NON-CONSTANT terms are dropped (an all-zero polynomial keeps one constant zero
+\* term); with retain_names off the names no remaining term uses are dropped (at least one
+\* name stays).  rows / coefs are parallel sequences, names the ordered name tuple.
+CleanKeep(rows, coefs, rc) ==
+  IF rc THEN [r \in 1..Len(rows) |-> r]
+  ELSE SelectSeq([r \in 1..Len(rows) |-> r], LAMBDA r : ~RowIsZero(coefs, r) \/ RowIsConst(rows, r))
+CleanTriple(rows, coefs, names, size, rc, rn) ==
+  LET width == Len(names)
+      keep == CleanKeep(rows, coefs, rc)
+      erows == IF keep = <<>> THEN <<[j \in 1..width |-> 0]>> ELSE [i \in 1..Len(keep) |-> rows[keep[i]]]
+      ecoefs == IF keep = <<>> THEN <<[k \in 1..size |-> NZero]>> ELSE [i \in 1..Len(keep) |-> coefs[keep[i]]]
+      cols == IF rn THEN [j \in 1..width |-> j]
+              ELSE LET used == SelectSeq([j \in 1..width |-> j], LAMBDA j : \E i \in 1..Len(erows) : erows[i][j] > 0)
+                   IN IF used = <<>> THEN <<1>> ELSE used
+  IN [rows |-> [i \in 1..Len(erows) |-> [c \in 1..Len(cols) |-> erows[i][cols[c]]]],
+      coefs |-> ecoefs,
+      names |-> [i \in 1..Len(cols) |-> names[cols[i]]]]
+TripleDen(t, shape) == PolyDen([shape |-> shape, names |-> t.names, rows |-> t.rows, coefs |-> t.coefs])
 =============================================================================
